@@ -177,6 +177,14 @@ def run(R):
             okenc = st[0] == 'agg' and term_contains(st[2][0], lambda x: x and x[0] == 'variant' and x[2] == 'Some') and 'arg4' in show(st[2][0])
             R.check(okenc, 'C03.R4', 'compress-with-that-encoding', site(ei, cb), 'settings.encoding = %s' % show(st[2][0] if st[0] == 'agg' else st))
 
+    if R.tier == 'thorough':
+        with R.guard('C03.R4', 'matrix'):
+            for name, cfg, cr in R.matrix():
+                if name.startswith('m_comp_'):
+                    R.cur_cfg = name
+                    C01.run_codec_tables(R, cr, tag='@C03@' + name, rule='C03.R4')
+            R.cur_cfg = 'full'
+
     # ---------------------------------------------------------------- R5 exactly one grpc-status / trailers typestate
     R.describe('C03.R5', 'EncodeBody: once the end-of-stream flag is set no further frame is produced; trailers are built only in the server role and set the flag first; the client role never produces trailers')
     with R.guard('C03.R5'):
